@@ -195,6 +195,7 @@ func c19Emit(fs *Facts) {
 		fs.Tri("oldIsLive", Unknown, c19Swamp)
 		fs.Tri("eventTimeFromClock", Unknown, c19Swamp)
 		c19SubscribersAfterStore(fs)
+		fs.Tri("stopsSendingAfterDrain", Unknown, c19Swamp)
 		return
 	}
 	save := f.Func("swamp", "SaveFunction")
@@ -207,6 +208,7 @@ func c19Emit(fs *Facts) {
 		fs.Tri("oldIsLive", Unknown, c19Swamp)
 		fs.Tri("eventTimeFromClock", Unknown, c19Swamp)
 		c19SubscribersAfterStore(fs)
+		fs.Tri("stopsSendingAfterDrain", Unknown, c19Swamp)
 		return
 	}
 	// ---- emittedUnderGuard: per top-level branch of SaveFunction
@@ -337,6 +339,7 @@ func c19Emit(fs *Facts) {
 	}
 	fs.Tri("eventTimeFromClock", et, etWhere)
 	c19SubscribersAfterStore(fs)
+	c19StopAfterDrain(fs, f)
 }
 
 func c19Flags(fs *Facts) {
@@ -479,4 +482,37 @@ func c19SubscribersAfterStore(fs *Facts) {
 		}
 	}
 	fs.Tri(name, Yes, path+":"+itoa(h.Line(looks[0])))
+}
+
+// stopsSendingAfterDrain: in the function that drains the vigils and destroys the swamp, StopSendingEvents comes
+// after WaitForActiveVigilsClosed (and after the branch that closes a non-empty swamp instead)
+func c19StopAfterDrain(fs *Facts, f *File) {
+	const name = "stopsSendingAfterDrain"
+	if _, done := fs.Lean[name]; done {
+		return
+	}
+	var body *ast.FuncDecl
+	for _, d := range f.AST.Decls {
+		if fd, ok := d.(*ast.FuncDecl); ok && fd.Body != nil && len(f.CallsSuffix(fd, ".WaitForActiveVigilsClosed")) == 1 &&
+			len(f.CallsSuffix(fd, ".chroniclerInterface.Destroy")) == 1 {
+			body = fd
+		}
+	}
+	if body == nil {
+		fs.Tri(name, Unknown, c19Swamp)
+		return
+	}
+	wait := f.CallsSuffix(body, ".WaitForActiveVigilsClosed")[0]
+	stops := f.CallsSuffix(body, ".StopSendingEvents")
+	if len(stops) == 0 {
+		fs.Tri(name, Unknown, c19Swamp+":"+itoa(f.Line(body)))
+		return
+	}
+	for _, st := range stops {
+		if st.Pos() < wait.Pos() {
+			fs.Tri(name, No, c19Swamp+":"+itoa(f.Line(st)))
+			return
+		}
+	}
+	fs.Tri(name, Yes, c19Swamp+":"+itoa(f.Line(stops[0])))
 }
